@@ -17,6 +17,7 @@ package validate
 import (
 	"reflect"
 
+	"github.com/go-openapi/errors"
 	"github.com/go-openapi/spec"
 	"github.com/go-openapi/strfmt"
 )
@@ -80,6 +81,12 @@ func (f *formatValidator) Validate(val interface{}) *Result {
 		}()
 	}
 
+	data, ok := val.(string)
+	if !ok {
+		// e.g. a json.Number: its kind is string, but it is not a string
+		return errorHelp.sErr(errors.InvalidType(f.Path, f.In, stringType, val), f.Options.recycleResult)
+	}
+
 	var result *Result
 	if f.Options.recycleResult {
 		result = pools.poolOfResults.BorrowResult()
@@ -87,7 +94,7 @@ func (f *formatValidator) Validate(val interface{}) *Result {
 		result = new(Result)
 	}
 
-	if err := FormatOf(f.Path, f.In, f.Format, val.(string), f.KnownFormats); err != nil {
+	if err := FormatOf(f.Path, f.In, f.Format, data, f.KnownFormats); err != nil {
 		result.AddErrors(err)
 	}
 
